@@ -18,7 +18,7 @@
     total order, and the orders of the library's key types (UintN, IntN, BitsN,
     AddressWithWorkchain) are shown to be instances. *)
 From Coq Require Import List NArith ZArith Arith Lia Bool Sorted Permutation.
-From Tongo Require Import Lib.Bits Lib.Res Spec.Dict Model.Hashmap Model.HashmapHist Proofs.HashmapHistP
+From Tongo Require Import Lib.Bits Lib.Res Spec.Dict Model.Hashmap Model.HashmapHist Proofs.HashmapHistP Proofs.HashmapCtxP
   Proofs.DictP Proofs.HashmapPut Proofs.HashmapSort Proofs.HashmapKeys
   Proofs.HashmapP Proofs.HashmapP2 Proofs.HashmapHistory.
 Import ListNotations.
@@ -369,6 +369,43 @@ Theorem C05_history_marshal_sound :
    else mi <> [] -> decode vdec n c = Ok (updates (puts_of V ops) (bsort m))).
 Proof. exact history_marshal_sound. Qed.
 Print Assumptions C05_history_marshal_sound.
+
+(** Decoding into an object that has been used before: the old contents are not
+    an input of the result (first conjunct, trivial in the model — the content is
+    the correspondence on c05.hist decode steps), and decoding any valid
+    HashmapE leaves exactly its mapping, on which all history theorems apply. *)
+Theorem C05_decode_overwrites_everything :
+  forall V venc vdec, vcodec venc vdec ->
+  forall e n (m1 m2 : list (bits * V)) c,
+  hdecode vdec e n m1 c = hdecode vdec e n m2 c /\
+  forall t : option (apt V), e = true ->
+  (forall a, t = Some a -> wf_pt n (erase a) /\ forms_valid a) ->
+  cells_of_e venc n t = Ok c ->
+  let m' := match t with Some a => tree_to_list [] (erase a) | None => [] end in
+  hdecode vdec e n m1 c = (m', true) /\ hinv V n m' /\ sorted m'.
+Proof.
+  intros V venc vdec Hc e n m1 m2 c. split; [reflexivity|].
+  intros t He Hw Hcells. exact (hdecode_valid V venc vdec Hc e n m1 t c He Hw Hcells).
+Qed.
+Print Assumptions C05_decode_overwrites_everything.
+
+(** ** the decoder context reaches every leaf unchanged *)
+
+(** For every decoder context (library resolver, hasher, flags) and every value
+    decoder depending on it: a valid dictionary with any label forms whose
+    leaves hold raw value encodings decodes to its keys with each value decoded
+    by [vdec ctx] on that leaf — exactly as outside a dictionary under the same
+    context — and fails iff some leaf fails under that context. *)
+Theorem C05_decoder_context_reaches_leaves :
+  forall (Ctx V : Type) (vdec : Ctx -> bits -> list cell -> option V) (ctx : Ctx)
+         n (t : apt (bits * list cell)) c,
+  wf_pt n (erase t) -> forms_valid t -> cells_of venc_raw n t = Ok c ->
+  match dec_all Ctx V vdec ctx (tree_to_list [] (erase t)) with
+  | Some l => decode (vdec ctx) n c = Ok l
+  | None => exists e, decode (vdec ctx) n c = Err e
+  end.
+Proof. exact decode_ctx. Qed.
+Print Assumptions C05_decoder_context_reaches_leaves.
 
 (** ** the inputs that refuted the property before the repairs, now *)
 Theorem C05_address_key_fixed :
